@@ -138,7 +138,7 @@ pub fn tape_checks(ctx: &Ctx) -> Vec<(&'static str, Box<CheckFn<'_>>)> {
 		(
 			"values",
 			Box::new(move |g: &mut Gen, stats: &mut Stats| {
-				let e = *g.pick(&entries);
+				let e = pick_entry(g, &entries);
 				let mut cfg = GenCfg { budget: if g.chance(40) { 30_000 } else { 300 }, ..GenCfg::default() };
 				let v = gen_val(&e.ty, g, &mut cfg);
 				let bytes = ref_encode(&e.ty, &v);
@@ -148,7 +148,7 @@ pub fn tape_checks(ctx: &Ctx) -> Vec<(&'static str, Box<CheckFn<'_>>)> {
 		(
 			"bytes",
 			Box::new(move |g: &mut Gen, stats: &mut Stats| {
-				let e = *g.pick(&entries2);
+				let e = pick_entry(g, &entries2);
 				let (mut bytes, family) = gen_input(&e.ty, g, 128);
 				if e.is_recursive() && bytes.len() > 256 {
 					bytes.truncate(256);
